@@ -163,6 +163,15 @@ struct Src
     return v[range(0, v.size() - 1)];
   }
   uint8_t byte() { return (uint8_t) range(0, 255); }
+  // all remaining raw input as bytes (libFuzzer: the rest of the input; other
+  // back ends: a drawn length followed by drawn bytes)
+  virtual bytes rest(size_t maxlen = 4096)
+  {
+    size_t n = (size_t) range(0, maxlen);
+    bytes b;
+    for (size_t i = 0; i < n; i++) b += (char) byte();
+    return b;
+  }
 };
 
 struct TapeSrc : Src
@@ -190,6 +199,13 @@ struct FdpSrc : Src
     if (span == UINT64_MAX)
       return v;
     return lo + v % (span + 1);
+  }
+  bytes rest(size_t maxlen = 4096) override
+  {
+    (void) maxlen;
+    bytes b((const char*) d + i, n - i);
+    i = n;
+    return b;
   }
 };
 
